@@ -198,7 +198,9 @@ func propC04(c *Ctx) {
 	c.Check("R4.3", "loadTasks/src-name-same-value", lm.fn.Pos(), ok, "wctx.WithSrcName and shovel.WithSrcName receive the same source-config field")
 	if ok {
 		_, chain := lm.chain(optSrc.Call.Args[0])
-		c.Check("R4.3", "loadTasks/src-name-is-Source.Name", optSrc.Pos(), chainIs(chain, w.Field("shovel/config", "Source", "Name")), "the stamped source name is config.Source.Name")
+		// … possibly inside a record that carries the source config (src.Source.Name through an embedded member)
+		fSrcName := w.Field("shovel/config", "Source", "Name")
+		c.Check("R4.3", "loadTasks/src-name-is-Source.Name", optSrc.Pos(), len(chain) > 0 && chain[len(chain)-1] == fSrcName, "the stamped source name is config.Source.Name")
 	}
 	ok = ctxChain != nil && optChain != nil && sameVar(ctxChain.Call.Args[1], optChain.Call.Args[0])
 	c.Check("R4.3", "loadTasks/chain-id-same-value", lm.fn.Pos(), ok, "context and task receive the same chain id")
